@@ -3,18 +3,149 @@ package diodeh
 import (
 	"bytes"
 	"context"
+	"encoding/json"
+	"errors"
 	"fmt"
 	"io"
 	"os"
 	"os/exec"
 	"strings"
+	"sync"
 	"sync/atomic"
 	"time"
 
 	"github.com/rs/zerolog"
 	"github.com/rs/zerolog/diode"
+	zlog "github.com/rs/zerolog/log"
 	"verifharness/hlib"
 )
+
+// The Fatal path in a re-executed process.  A child is described by three environment variables:
+//
+//	VERIF_C11_FATAL        mode: which destination / which moment (wait, poll, slow, closing, closing-poll)
+//	VERIF_C11_FATAL_FIN    how the fatal event is finished (finalizer spelling x message class), see fatalFins
+//	VERIF_C11_FATAL_SHAPE  how the logger on which Fatal is called was obtained, see fatalShapes
+//
+// (FIN and SHAPE empty = Msg("fatal-last-words") on zerolog.New(diode writer), the scenario of rounds 1-5.)
+const fatalMarker = "fatal-last-words"
+
+// fatalFins: every way of finishing an event, with an empty and a non-empty message.  The callback that closes the
+// writer and exits receives the message; whether the message is empty, formatted, produced by a function or absent
+// (Send) must make no difference to what is flushed before the process exits.
+var fatalFins = []string{
+	"msg-text", "msgf-args", "msgfunc-text", "msg-long", "msg-space",
+	"msg-empty", "msgf-empty", "msgf-args-empty", "msgfunc-empty", "send", "err-send",
+}
+
+// fatalFinText: the finalizer as Go source, for the replay files.
+var fatalFinText = map[string]string{
+	"": `.Msg("fatal-last-words")`, "msg-text": `.Msg("fatal-last-words")`, "msgf-args": `.Msgf("fatal-%s-%d", "last-words", 1)`,
+	"msgfunc-text": `.MsgFunc(func() string { return "fatal-last-words" })`, "msg-long": `.Msg(strings.Repeat("fatal-last-words ", 120))`,
+	"msg-space": `.Msg(" ")`, "msg-empty": `.Msg("")`, "msgf-empty": `.Msgf("")`, "msgf-args-empty": `.Msgf("%s", "")`,
+	"msgfunc-empty": `.MsgFunc(func() string { return "" })`, "send": `.Send()`, "err-send": `.Err(errors.New("giving up")).Send()`,
+}
+
+// fatalShapeText: the logger on which Fatal() is called as Go source (dw = diode.NewWriter(stdout, 64, poll, alerter);
+// the "before" events are logged through the same logger l).
+var fatalShapeText = map[string]string{
+	"": "l := zerolog.New(dw); l.Fatal()", "plain": "l := zerolog.New(dw); l.Fatal()",
+	"with":              `l := zerolog.New(dw).With().Str("svc", "x").Logger(); l.Fatal()`,
+	"level":             "l := zerolog.New(dw).Level(zerolog.InfoLevel); l.Fatal()",
+	"hook":              "l := zerolog.New(dw).Hook(noopHook{}); l.Fatal()",
+	"sample":            "l := zerolog.New(dw).Sample(&zerolog.BasicSampler{N: 1}); l.Fatal()",
+	"ctx":               "l := zerolog.New(dw); zerolog.Ctx(l.WithContext(context.Background())).Fatal()",
+	"global":            "l := zerolog.New(dw); log.Logger = l; log.Fatal()",
+	"output":            "l := zerolog.New(io.Discard).Output(dw); l.Fatal()",
+	"w-adapter":         "l := zerolog.New(zerolog.LevelWriterAdapter{Writer: dw}); l.Fatal()",
+	"w-filtered":        "l := zerolog.New(&zerolog.FilteredLevelWriter{Writer: zerolog.LevelWriterAdapter{Writer: dw}, Level: zerolog.InfoLevel}); l.Fatal()",
+	"w-multi":           "l := zerolog.New(zerolog.MultiLevelWriter(dw)); l.Fatal()",
+	"w-sync":            "l := zerolog.New(zerolog.SyncWriter(dw)); l.Fatal()",
+	"filtered-level":    "l := zerolog.New(dw); l.Level(zerolog.PanicLevel).Fatal()",
+	"filtered-disabled": "l := zerolog.New(dw); l.Level(zerolog.Disabled).Fatal()",
+	"filtered-sampler":  "l := zerolog.New(dw); l.Sample(neverSampler{}).Fatal()",
+	"filtered-global":   "l := zerolog.New(dw); zerolog.SetGlobalLevel(zerolog.PanicLevel); l.Fatal()",
+	fatalWithLevelShape: "l := zerolog.New(dw); l.WithLevel(zerolog.FatalLevel)<finalizer>; dw.Close(); os.Exit(1)",
+}
+
+// fatalShapes: ways of obtaining the logger whose Fatal is called (all of them diode-backed and with the fatal level
+// enabled): derived loggers, the logger stored in a context, the global logger of package log, and the documented
+// Close-forwarding level writers between the logger and the diode.
+var fatalShapes = []string{
+	"plain", "with", "level", "hook", "sample", "ctx", "global", "output",
+	"w-adapter", "w-filtered", "w-multi", "w-sync",
+}
+
+// fatalFilteredShapes: the Fatal call itself is filtered out (level, sampler, global level) on a logger derived from
+// the one that wrote the backlog; the process still ends through Logger.Fatal, so the backlog is still owed.
+var fatalFilteredShapes = []string{"filtered-level", "filtered-disabled", "filtered-sampler", "filtered-global"}
+
+// "withlevel-close": WithLevel(FatalLevel) neither closes nor exits; the caller closes the diode itself and exits.
+const fatalWithLevelShape = "withlevel-close"
+
+type neverSampler struct{}
+
+func (neverSampler) Sample(zerolog.Level) bool { return false }
+
+type noopHook struct{}
+
+func (noopHook) Run(*zerolog.Event, zerolog.Level, string) {}
+
+// fatalFinish finishes the (possibly nil) event with the given spelling.
+func fatalFinish(e *zerolog.Event, fin string) {
+	e = e.Str("marker", fatalMarker)
+	switch fin {
+	case "", "msg-text":
+		e.Msg("fatal-last-words")
+	case "msgf-args":
+		e.Msgf("fatal-%s-%d", "last-words", 1)
+	case "msgfunc-text":
+		e.MsgFunc(func() string { return "fatal-last-words" })
+	case "msg-long":
+		e.Msg(strings.Repeat("fatal-last-words ", 120))
+	case "msg-space":
+		e.Msg(" ")
+	case "msg-empty":
+		e.Msg("")
+	case "msgf-empty":
+		e.Msgf("")
+	case "msgf-args-empty":
+		e.Msgf("%s", "")
+	case "msgfunc-empty":
+		e.MsgFunc(func() string { return "" })
+	case "send":
+		e.Send()
+	case "err-send":
+		e.Err(errors.New("giving up")).Send()
+	default:
+		fmt.Fprintf(os.Stderr, "unknown finalizer %q\n", fin)
+		os.Exit(9)
+	}
+}
+
+// fatalLogger builds the logger that writes the "before" events for the given shape.
+func fatalLogger(shape string, dw diode.Writer) zerolog.Logger {
+	switch shape {
+	case "with":
+		return zerolog.New(dw).With().Str("svc", "x").Logger()
+	case "level":
+		return zerolog.New(dw).Level(zerolog.InfoLevel)
+	case "hook":
+		return zerolog.New(dw).Hook(noopHook{})
+	case "sample":
+		return zerolog.New(dw).Sample(&zerolog.BasicSampler{N: 1})
+	case "output":
+		return zerolog.New(io.Discard).Output(dw)
+	case "w-adapter":
+		return zerolog.New(zerolog.LevelWriterAdapter{Writer: dw})
+	case "w-filtered":
+		return zerolog.New(&zerolog.FilteredLevelWriter{Writer: zerolog.LevelWriterAdapter{Writer: dw}, Level: zerolog.InfoLevel})
+	case "w-multi":
+		return zerolog.New(zerolog.MultiLevelWriter(dw))
+	case "w-sync":
+		return zerolog.New(zerolog.SyncWriter(dw))
+	}
+	return zerolog.New(dw)
+}
 
 // FatalChild: when re-executed with VERIF_C11_FATAL set, log through a diode.Writer and end with Logger.Fatal.
 func FatalChild() {
@@ -22,6 +153,8 @@ func FatalChild() {
 	if mode == "" {
 		return
 	}
+	fin := os.Getenv("VERIF_C11_FATAL_FIN")
+	shape := os.Getenv("VERIF_C11_FATAL_SHAPE")
 	var poll time.Duration
 	if mode == "poll" {
 		poll = 5 * time.Millisecond
@@ -45,7 +178,7 @@ func FatalChild() {
 		}
 	}
 	dw := diode.NewWriter(out, 64, poll, func(missed int) { fmt.Fprintf(os.Stderr, "missed %d\n", missed) })
-	l := zerolog.New(dw)
+	l := fatalLogger(shape, dw)
 	for i := 0; i < n; i++ {
 		l.Info().Int("i", i).Msg("before")
 	}
@@ -55,7 +188,32 @@ func FatalChild() {
 			time.Sleep(200 * time.Microsecond)
 		}
 	}
-	l.Fatal().Msg("fatal-last-words")
+	switch shape {
+	case "ctx":
+		ctx := l.WithContext(context.Background())
+		fatalFinish(zerolog.Ctx(ctx).Fatal(), fin)
+	case "global":
+		zlog.Logger = l
+		fatalFinish(zlog.Fatal(), fin)
+	case "filtered-level":
+		fl := l.Level(zerolog.PanicLevel)
+		fatalFinish(fl.Fatal(), fin)
+	case "filtered-disabled":
+		fl := l.Level(zerolog.Disabled)
+		fatalFinish(fl.Fatal(), fin)
+	case "filtered-sampler":
+		fl := l.Sample(neverSampler{})
+		fatalFinish(fl.Fatal(), fin)
+	case "filtered-global":
+		zerolog.SetGlobalLevel(zerolog.PanicLevel)
+		fatalFinish(l.Fatal(), fin)
+	case fatalWithLevelShape:
+		fatalFinish(l.WithLevel(zerolog.FatalLevel), fin)
+		dw.Close()
+		os.Exit(1)
+	default:
+		fatalFinish(l.Fatal(), fin)
+	}
 	os.Exit(7) // not reached
 }
 
@@ -63,12 +221,118 @@ func FatalChild() {
 // and judged on what it had written by then (exit code -1).
 const fatalChildLimit = 30 * time.Second
 
-func fatalChildCmd(self, mode string) (*exec.Cmd, context.CancelFunc) {
+// fatalParallel: how many children run at the same time (they mostly sleep in their slow destination).
+const fatalParallel = 8
+
+type fatalSpec struct {
+	mode, fin, shape string
+}
+
+type fatalResult struct {
+	code        int
+	out, errOut string
+}
+
+func fatalChildCmd(self string, s fatalSpec) (*exec.Cmd, context.CancelFunc) {
 	ctx, cancel := context.WithTimeout(context.Background(), fatalChildLimit)
 	cmd := exec.CommandContext(ctx, self)
 	cmd.WaitDelay = 2 * time.Second
-	cmd.Env = append(os.Environ(), "VERIF_C11_FATAL="+mode)
+	cmd.Env = append(os.Environ(), "VERIF_C11_FATAL="+s.mode, "VERIF_C11_FATAL_FIN="+s.fin, "VERIF_C11_FATAL_SHAPE="+s.shape)
 	return cmd, cancel
+}
+
+func runFatalChild(self string, s fatalSpec) fatalResult {
+	cmd, cancel := fatalChildCmd(self, s)
+	var out, errb bytes.Buffer
+	cmd.Stdout, cmd.Stderr = &out, &errb
+	err := cmd.Run()
+	cancel()
+	code := -1
+	if ee, ok := err.(*exec.ExitError); ok {
+		code = ee.ExitCode()
+	} else if err == nil {
+		code = 0
+	}
+	return fatalResult{code, out.String(), errb.String()}
+}
+
+// fatalSpecs: the runs of one check.  Rounds 1-5: wait x3, poll x3, slow, closing, closing-poll with Msg(text) on the
+// plain logger.  Round 6: every mode x every finalizer spelling / message class on the plain logger; every logger
+// shape x {Msg(text), Send()} in the modes wait and poll; a filtered Fatal and the WithLevel(FatalLevel)+Close
+// control in the modes wait, poll and slow.
+func fatalSpecs() []fatalSpec {
+	var specs []fatalSpec
+	for _, mode := range []string{"wait", "poll", "slow", "closing", "closing-poll"} {
+		for i := 0; i < 3; i++ {
+			if mode != "wait" && mode != "poll" && i > 0 {
+				break
+			}
+			specs = append(specs, fatalSpec{mode, "", ""})
+		}
+	}
+	for _, fin := range fatalFins {
+		for _, mode := range []string{"wait", "poll", "slow", "closing", "closing-poll"} {
+			if fin == "msg-text" && mode != "wait" && mode != "poll" {
+				continue // the same run as the default spelling above
+			}
+			specs = append(specs, fatalSpec{mode, fin, "plain"})
+		}
+	}
+	for _, shape := range fatalShapes {
+		if shape == "plain" {
+			continue
+		}
+		for _, fin := range []string{"msg-text", "send"} {
+			for _, mode := range []string{"wait", "poll"} {
+				specs = append(specs, fatalSpec{mode, fin, shape})
+			}
+		}
+	}
+	for _, shape := range fatalFilteredShapes {
+		for _, mode := range []string{"wait", "poll", "slow"} {
+			specs = append(specs, fatalSpec{mode, "msg-text", shape})
+		}
+	}
+	for _, fin := range fatalFins {
+		for _, mode := range []string{"wait", "poll"} {
+			specs = append(specs, fatalSpec{mode, fin, fatalWithLevelShape})
+		}
+	}
+	specs = append(specs, fatalSpec{"slow", "send", fatalWithLevelShape})
+	return specs
+}
+
+func fatalCallText(s fatalSpec) string {
+	fin := `.Str("marker", "fatal-last-words")` + fatalFinText[s.fin]
+	if t := fatalShapeText[s.shape]; strings.Contains(t, "<finalizer>") {
+		return strings.Replace(t, "<finalizer>", fin, 1)
+	} else {
+		return t + fin
+	}
+}
+
+func isFilteredShape(shape string) bool { return strings.HasPrefix(shape, "filtered-") }
+
+// countFatalLines: how many "before" events, how many fatal-level lines carrying the marker field, and how many lines
+// in all the child's wrapped writer (its stdout) received.
+func countFatalLines(out string) (before, fatal, lines int) {
+	for _, ln := range strings.Split(out, "\n") {
+		if ln == "" {
+			continue
+		}
+		lines++
+		var m map[string]interface{}
+		if json.Unmarshal([]byte(ln), &m) != nil {
+			continue
+		}
+		if m["message"] == "before" && m["level"] == "info" {
+			before++
+		}
+		if m["level"] == "fatal" && m["marker"] == fatalMarker {
+			fatal++
+		}
+	}
+	return
 }
 
 // fatalPath: Logger.Fatal closes the diode writer (drains the ring) before os.Exit(1).
@@ -83,66 +347,91 @@ func fatalPath(c *hlib.Ctx) {
 		c.Note("fatal path not run: the executable is a test binary")
 		return
 	}
-	runs := 0
-	for _, mode := range []string{"wait", "poll", "slow", "closing", "closing-poll"} {
-		for i := 0; i < 3; i++ {
-			if mode == "slow" && i > 0 {
-				break
-			}
-			if mode == "closing" || mode == "closing-poll" {
-				if i == 0 {
-					fatalWhileClosing(c, self, mode)
-					runs++
+	specs := fatalSpecs()
+	results := make([]fatalResult, len(specs))
+	var wg sync.WaitGroup
+	next := int32(-1)
+	for k := 0; k < fatalParallel; k++ {
+		wg.Add(1)
+		go func() {
+			defer wg.Done()
+			for {
+				i := int(atomic.AddInt32(&next, 1))
+				if i >= len(specs) {
+					return
 				}
-				continue
+				results[i] = runFatalChild(self, specs[i])
 			}
-			cmd, cancel := fatalChildCmd(self, mode)
-			var out, errb bytes.Buffer
-			cmd.Stdout, cmd.Stderr = &out, &errb
-			err := cmd.Run()
-			cancel()
-			code := -1
-			if ee, ok := err.(*exec.ExitError); ok {
-				code = ee.ExitCode()
-			} else if err == nil {
-				code = 0
-			}
-			runs++
-			lines := strings.Count(out.String(), "\n")
-			wantLines := 6
-			if mode == "slow" {
-				wantLines = 15
-			}
-			if code != 1 || !strings.Contains(out.String(), "fatal-last-words") || lines != wantLines {
-				c.Violate(hlib.Violation{Key: "fatal-loses-messages", Monitor: "fatal-path", Desc: fmt.Sprintf("Logger.Fatal through a diode.Writer: the process must exit 1 after all %d events reached the wrapped writer (mode slow: the destination takes 100 ms per write)", wantLines),
-					Case: map[string]interface{}{"mode": mode}, Observed: map[string]interface{}{"exit": code, "stdout": out.String(), "stderr": errb.String()}})
-			}
+		}()
+	}
+	wg.Wait()
+	for i, s := range specs {
+		judgeFatalChild(c, s, results[i])
+	}
+	c.Res.ExtraCoverage["fatal_path_runs"] = len(specs)
+	c.Res.ExtraCoverage["fatal_path_finalizers"] = len(fatalFins)
+	c.Res.ExtraCoverage["fatal_path_logger_shapes"] = len(fatalShapes) + len(fatalFilteredShapes) + 1
+}
+
+func judgeFatalChild(c *hlib.Ctx, s fatalSpec, r fatalResult) {
+	if s.mode == "closing" || s.mode == "closing-poll" {
+		fatalWhileClosing(c, s, r)
+		return
+	}
+	before, fatal, lines := countFatalLines(r.out)
+	wantBefore := 5
+	if s.mode == "slow" {
+		wantBefore = 14
+	}
+	kase := map[string]interface{}{"mode": s.mode}
+	if s.fin != "" || s.shape != "" {
+		kase["finalizer"] = s.fin
+		kase["logger"] = s.shape
+		kase["fatal_call"] = fatalCallText(s)
+		kase["events_before"] = wantBefore
+		kase["ring"] = 64
+	}
+	obs := map[string]interface{}{"exit": r.code, "before_events_on_stdout": before, "fatal_events_on_stdout": fatal, "stdout": r.out, "stderr": r.errOut}
+	switch {
+	case isFilteredShape(s.shape):
+		// The Fatal event itself is filtered out (nothing is demanded about it, nor about the exit code: C04);
+		// the events written before it through the same diode are still in the ring when the process ends through
+		// Logger.Fatal, and the Fatal path closes the writer first.
+		if r.code == -1 || before != wantBefore {
+			c.Violate(hlib.Violation{Key: "fatal-filtered-loses-backlog", Monitor: "fatal-path",
+				Desc: fmt.Sprintf("%d events logged through a diode.Writer (ring 64), then Logger.Fatal on a logger derived from it that filters the fatal level out (%s): the process ends through Logger.Fatal, which must close the writer first, so all %d earlier events reach the wrapped writer; %d did, exit code %d", wantBefore, s.shape, wantBefore, before, r.code),
+				Case: kase, Observed: obs, Expected: fmt.Sprintf("%d 'before' events on stdout before the process exits", wantBefore)})
+		}
+	case s.shape == fatalWithLevelShape:
+		if r.code != 1 || before != wantBefore || fatal != 1 || lines != wantBefore+1 {
+			c.Violate(hlib.Violation{Key: "withlevel-fatal-close-loses-messages", Monitor: "fatal-path",
+				Desc: fmt.Sprintf("%d events and one WithLevel(FatalLevel) event (finalizer %s) logged through a diode.Writer (ring 64), then Writer.Close and os.Exit(1): all %d events must have reached the wrapped writer when Close returned", wantBefore, s.fin, wantBefore+1),
+				Case: kase, Observed: obs, Expected: fmt.Sprintf("exit 1 with %d lines on stdout, the last-written one at fatal level", wantBefore+1)})
+		}
+	default:
+		if r.code != 1 || !strings.Contains(r.out, fatalMarker) || lines != wantBefore+1 || before != wantBefore || fatal != 1 {
+			c.Violate(hlib.Violation{Key: "fatal-loses-messages", Monitor: "fatal-path", Desc: fmt.Sprintf("Logger.Fatal through a diode.Writer: the process must exit 1 after all %d events reached the wrapped writer (mode slow: the destination takes 100 ms per write; finalizer = how the fatal event was finished, e.g. Send() / Msg(\"\") leave the message empty; logger = how the logger was obtained)", wantBefore+1),
+				Case: kase, Observed: obs, Expected: fmt.Sprintf("exit 1 with %d 'before' events and the fatal event on stdout", wantBefore)})
 		}
 	}
-	c.Res.ExtraCoverage["fatal_path_runs"] = runs
 }
 
 // fatalWhileClosing: all "before" events were written (their Writes returned) before either Close was called; the
 // shutdown Close is draining them into a destination that takes 20 ms per write when Fatal is called.  Fatal's own
 // Close must not return (and the process must not exit) before they have all been handed to the destination.
 // The Fatal event itself is written after a Close was called: nothing is demanded about it.
-func fatalWhileClosing(c *hlib.Ctx, self, mode string) {
-	cmd, cancel := fatalChildCmd(self, mode)
-	var out, errb bytes.Buffer
-	cmd.Stdout, cmd.Stderr = &out, &errb
-	err := cmd.Run()
-	cancel()
-	code := -1
-	if ee, ok := err.(*exec.ExitError); ok {
-		code = ee.ExitCode()
-	} else if err == nil {
-		code = 0
-	}
-	before := strings.Count(out.String(), "\"message\":\"before\"")
-	if code != 1 || before != 20 {
-		c.Violate(hlib.Violation{Key: "fatal-loses-messages", Monitor: "fatal-path", Desc: fmt.Sprintf("20 events logged through a diode.Writer (ring 64) over a destination that takes 20 ms per write; a goroutine calls Writer.Close (shutdown) and, once the drain is under way, Logger.Fatal is called: the process must exit 1 only after all 20 events reached the destination; %d did, exit code %d", before, code),
-			Case:     map[string]interface{}{"mode": mode, "events_before": 20, "destination_takes_per_write": "20ms", "ring": 64, "order": "20 x Info (returned); go Writer.Close(); wait until 2 events reached the destination; Logger.Fatal"},
-			Observed: map[string]interface{}{"exit": code, "before_events_on_stdout": before, "stdout": out.String(), "stderr": errb.String()}, Expected: "exit 1 with 20 'before' events on stdout"})
+func fatalWhileClosing(c *hlib.Ctx, s fatalSpec, r fatalResult) {
+	before := strings.Count(r.out, "\"message\":\"before\"")
+	if r.code != 1 || before != 20 {
+		kase := map[string]interface{}{"mode": s.mode, "events_before": 20, "destination_takes_per_write": "20ms", "ring": 64, "order": "20 x Info (returned); go Writer.Close(); wait until 2 events reached the destination; Logger.Fatal"}
+		if s.fin != "" || s.shape != "" {
+			kase["finalizer"] = s.fin
+			kase["logger"] = s.shape
+			kase["fatal_call"] = fatalCallText(s)
+		}
+		c.Violate(hlib.Violation{Key: "fatal-loses-messages", Monitor: "fatal-path", Desc: fmt.Sprintf("20 events logged through a diode.Writer (ring 64) over a destination that takes 20 ms per write; a goroutine calls Writer.Close (shutdown) and, once the drain is under way, Logger.Fatal is called: the process must exit 1 only after all 20 events reached the destination; %d did, exit code %d", before, r.code),
+			Case:     kase,
+			Observed: map[string]interface{}{"exit": r.code, "before_events_on_stdout": before, "stdout": r.out, "stderr": r.errOut}, Expected: "exit 1 with 20 'before' events on stdout"})
 	}
 }
 
